@@ -35,9 +35,9 @@ Proof.
   assert (Hother : Pending45 w o = false -> Inv04 w' /\ Inv05 T w').
   { intros HP0. eapply (C45_inv_partial T tab_el tab_en check_fn LATEST root_attrs TK); eauto. }
   destruct o; try (apply Hother; exact HP); cbn [Pending45m] in HP; apply negb_false_iff in HP; cbn [run_op] in H.
-  - apply welem_inv in H as (r0 & H).
+  - apply welem_inv in H as (r0 & H). unfold simple_move in HP. apply andb_true_iff in HP as (_ & HP).
     destruct (C45_move T tab_el tab_en check_fn LATEST TK root_attrs h mv w r0 w' (conj HF (conj HI4 HI5)) HK4 HK5 HP H) as (_ & H1 & H2). auto.
-  - apply welem_inv in H as (r0 & H).
+  - apply welem_inv in H as (r0 & H). unfold simple_move in HP. apply andb_true_iff in HP as (_ & HP).
     destruct (C45_move_at T tab_el tab_en check_fn LATEST TK root_attrs h mv pos w r0 w' (conj HF (conj HI4 HI5)) HK4 HK5 HP H) as (_ & H1 & H2). auto.
 Qed.
 
